@@ -3,7 +3,8 @@
 \* (src/Bpp/Numeric/Matrix/MatrixTools.h) on exact integer matrices.
 \*
 \* A matrix is a record [r |-> rows, c |-> cols, e |-> <<row_1, ..., row_r>>],
-\* every row a tuple of c integers (0 x 0 is [r |-> 0, c |-> 0, e |-> <<>>]).
+\* every row a tuple of c integers (0 x 0 is [r |-> 0, c |-> 0, e |-> <<>>]; the
+\* degenerate shapes r x 0 and 0 x c are legal values: dimensions as reported).
 \* Entries are integers: either the values themselves (encoding E2) or the
 \* numerators of dyadic rationals at a scale the driver keeps track of
 \* (encoding E3) - every operation below is homogeneous in its operands, so the
@@ -27,8 +28,7 @@ Mk(r, c, F(_, _)) ==
 
 WF(A) == /\ A.r \in Nat /\ A.c \in Nat
          /\ DOMAIN A.e = 1..A.r
-         /\ \A i \in 1..A.r : DOMAIN A.e[i] = 1..A.c
-         /\ (A.r = 0 \/ A.c = 0) => (A.r = 0 /\ A.c = 0)        \* r x 0 / 0 x c are never generated
+         /\ \A i \in 1..A.r : DOMAIN A.e[i] = 1..A.c            \* r x 0 is r empty rows, 0 x c is no row at all
 
 SameDims(A, B) == A.r = B.r /\ A.c = B.c
 IsSquare(A)    == A.r = A.c
